@@ -503,6 +503,12 @@ def impl_phase(ctx, tag, exe, mode_args, scope_args, trace_module, defs, consts,
     sc = {"mode": mode_args[0], "args": [str(a) for a in mode_args[1:]], "scope": [str(s) for s in scope_args]}
     nviol = judge_trace(ctx, tag, trace, res, props, sc, summ=summ, died=died,
                         recipe=lambda rec: replay_recipe(ctx, exe, sc, rec, trace_module, defs, consts))
+    if not nviol and summ.get("fatal") and mode_args[0] in ("explore", "random") and not (env or {}).get("VERIF_SKIP_FATAL"):
+        # the library crashed or hung in an operation the property under check says nothing about, and the driver stopped
+        # there: what it had explored up to then is not a verdict.  Once more, going on around such outcomes.
+        ctx.notes.append(f"{tag}: an operation ended with a crash / hang that {', '.join(sorted(props))} does not judge; exploration repeated around such outcomes")
+        return impl_phase(ctx, tag + "-around", exe, mode_args, scope_args, trace_module, defs, consts, props, expect_states=None,
+                          levels=(2,), keep=keep, timeout=timeout, env=dict(env or {}, VERIF_SKIP_FATAL="1"))
     ctx.cov["traces_validated_against_impl"] += res["n"]
     run = {"phase": tag, "mode": mode_args[0], "scope": " ".join(str(s) for s in scope_args),
            "transitions_validated": res["n"], "impl_states": summ.get("impl_states"),
